@@ -73,6 +73,8 @@ def run(pid, tier, seed):
         os.makedirs(d)
         for form in forms:
             shutil.copyfile(src + form, os.path.join(d, "k.evtx" + form))
+            # the file's own modification time says nothing about the records in it: older than every record
+            os.utime(os.path.join(d, "k.evtx" + form), (315532800, 315532800))
         # the event log as a tar member, under a short path and under one beyond the 100-byte name field
         import tarfile
         evb = open(src, "rb").read()
